@@ -185,6 +185,7 @@ func c01dStageModel(c *Ctx, name string, cases []*c01dCase) error {
 	if err != nil {
 		return err
 	}
+	ndiff := 0
 	for k, i := range idx {
 		cs := cases[i]
 		b, ok, msg := h.DecodeReply(rep[k])
@@ -202,6 +203,10 @@ func c01dStageModel(c *Ctx, name string, cases []*c01dCase) error {
 			st.Tag("var-declarations-merged-or-hoisted")
 		}
 		if string(b) != cs.realK {
+			ndiff++
+			if ndiff > 8 {
+				continue // leave room for the failing inputs of the later stages (the report keeps 40 findings)
+			}
 			c.R.Add(h.Finding{Stage: name, Kind: "diff", What: "model.c01d.min differs from js.Minify{KeepVarNames}", Input: cs.src, Impl: cs.realK, Model: string(b), Seed: c.Seed})
 		}
 	}
@@ -338,6 +343,7 @@ func c01dStageSpecNode(c *Ctx, name string, cases []*c01dCase) error {
 	if err != nil {
 		return err
 	}
+	nd := 0
 	for k, i := range idx {
 		l := c01dDecode(rep[k])
 		n := nobs[k]
@@ -360,6 +366,10 @@ func c01dStageSpecNode(c *Ctx, name string, cases []*c01dCase) error {
 			st.Tag("tdz-global")
 		}
 		if l != n {
+			nd++
+			if nd > 6 {
+				continue
+			}
 			c.R.Add(h.Finding{Stage: name, Kind: "diff", What: "the Lean semantics disagrees with node on an input (the specification is wrong)", Input: cases[i].src, Impl: n, Model: l, Seed: c.Seed})
 		}
 	}
@@ -431,7 +441,7 @@ func c01dKnownTrigger(cs *c01dCase, cfg string) string {
 		cs.trigForeign, cs.trigForLet = c01dAstTriggers(cs.src)
 		cs.trigDone = true
 	}
-	if cs.trigForeign {
+	if cs.trigForeign && !c01dFactOwnFunction {
 		return "K-C01D-4"
 	}
 	if c01dTrigCatchVar(cs.src) {
@@ -447,6 +457,23 @@ func c01dKnownTrigger(cs *c01dCase, cfg string) string {
 		return "K-C01D-5"
 	}
 	return ""
+}
+
+// c01dFactOwnFunction: mergeVarDeclExprStmt checks that the assignment target belongs to the function (read from the
+// source by the translator; when true K-C01D-4 cannot occur and its trigger is off)
+var c01dFactOwnFunction bool
+
+func c01dLoadFacts() error {
+	rep, err := h.Eval([]string{"model.c01d.facts"})
+	if err != nil {
+		return err
+	}
+	b, ok, msg := h.DecodeReply(rep[0])
+	if !ok || len(b) != 3 {
+		return fmt.Errorf("model.c01d.facts: %s %q", msg, b)
+	}
+	c01dFactOwnFunction = b[0] == '1'
+	return nil
 }
 
 var c01dCatchVarRe = regexp.MustCompile(`catch\((\w+)\)\{`)
@@ -615,6 +642,9 @@ func init() {
 		if p := os.Getenv("C01D_DEBUG"); p != "" {
 			return c01dDebug(p)
 		}
+		if err := c01dLoadFacts(); err != nil {
+			return err
+		}
 		if c.Replay != "" {
 			if src := c01dReplayInput(c.Replay); src != "" {
 				return c01dRunAll(c, "replay-", []string{src}, true)
@@ -627,7 +657,7 @@ func init() {
 			return err
 		}
 		// 1. programs of the Lean fragment
-		n := c.N(1500, 40000)
+		n := c.N(1500, 30000)
 		if c.Search {
 			n *= 3
 		}
@@ -639,7 +669,7 @@ func init() {
 			return err
 		}
 		// 2. larger programs outside the model: node only
-		m := c.N(800, 25000)
+		m := c.N(800, 18000)
 		if c.Search {
 			m *= 3
 		}
